@@ -45,6 +45,8 @@ RULE = ("cases = (device LPF|BPF, order 1..8, cut-off/fs in (0.01,0.45) incl. bo
         "; gv configured in every way ((sps,R), (sps,fs), (R,fs) with fs not a multiple of R, fs alone, slot count N in force) for a third "
         "of the LPF/BPF cases, a third of the tone (cut-off) cases and one step of every history, cut-offs and the model referring to the "
         "REQUESTED rate; every real call runs under an operand monitor (operand bytes unchanged, result is a new object, no shared memory); "
+        "every LPF/BPF case chains a second stage of equal, larger and smaller bandwidth on the RETURNED object and compares it bit for bit "
+        "with the same call on a fresh container of the same samples; the returned object's attribute set is monitored; "
         "every LPF/BPF case repeats the call on the same object, calls positionally in the documented order vs by keyword, and (LPF) with "
         "retH=True; tones are carried by the signal AND the noise component, for LPF also with retH=True "
         "+ long records (65537, 100000, 131072 samples; LPF and BPF; 1 and 2 polarisations; Gaussian pulses at different instants on every "
@@ -407,6 +409,13 @@ def _monitored(fname, func, x, *args, **kw):
         if a1 is not a0 or a1.dtype != dt or a1.shape != sh or a1.tobytes() != b0:
             _MON.append(("operand-modified", f"{fname}: the operand's .{nm} was changed by the call"
                                              + (" (array replaced)" if a1 is not a0 else " (samples overwritten)")))
+    if hasattr(y, "signal"):
+        # the result is an ordinary container: the attribute set of a fresh object of its class (execution_time apart)
+        fresh = type(y)(np.zeros(2)) if y.signal.ndim == 1 else type(y)(np.zeros((2, 2)))
+        ka, kb = set(vars(y)) - {"execution_time"}, set(vars(fresh)) - {"execution_time"}
+        if ka != kb:
+            _MON.append(("result-attributes", f"{fname}: the returned {type(y).__name__} carries attributes {sorted(ka ^ kb)} that a fresh "
+                                              f"container of that class does not (or lacks them)"))
     if y is x:
         _MON.append(("result-is-operand", f"{fname} returned its own operand object"))
     elif hasattr(y, "signal"):
@@ -566,6 +575,17 @@ def _run_main(case, devn, fs, spy, res):
         res["polswap"] = _maxabs(ysp.signal[::-1] - y.signal)
         yone = _call(devn, _mk(devn, s[1].copy(), None, 1), case, bw)
         res["pol_alone"] = _maxabs(yone.signal - y.signal[1])
+    # chains on the RETURNED object: a second stage of equal, larger and smaller bandwidth must act exactly as on a fresh
+    # container holding the same samples (the result depends on the samples, not on the container's history)
+    fcn = case["fcn"]
+    chain = []
+    for f in (1.0, min(1.5, 0.449 / fcn), min(1.0, max(0.6, 0.0102 / fcn))):
+        zr = _call(devn, y, case, bw * f)
+        ys = np.array(y.signal, copy=True)
+        yn = None if y.noise is None else np.array(y.noise, copy=True)
+        zf = _call(devn, _mk(devn, ys, yn, npol), case, bw * f)
+        chain.append({"f": f, "same": _same(zr, zf)})
+    res["chain"] = chain
     # the same object filtered again gives the same result (the operand is not consumed)
     yrep = _call(devn, x, case, bw)
     res["repeat"] = _same(yrep, y)
@@ -1066,6 +1086,12 @@ def _oracle_kind(case, res):
                 v.append((f"C11:{devn}-pol-alike", f"exchanging the polarisations does not exchange the outputs (diff {res['polswap']:.3e})"))
             if not (res["pol_alone"] <= 1e-12 * res["scale"]):
                 v.append((f"C11:{devn}-pol-independent", f"a polarisation is filtered differently alone and beside the other (diff {res['pol_alone']:.3e})"))
+        fname_ = "BPF" if devn == "bpf" else "LPF"
+        for ch in res.get("chain") or [{"f": None, "same": False}]:
+            if not ch["same"]:
+                v.append((f"C11:{devn}-chain", f"{fname_}({fname_}(x, BW), {ch['f']}*BW) on the returned object differs from the same call on a fresh "
+                                               f"container holding the same samples (second stage "
+                                               + ("narrower" if ch["f"] is not None and ch["f"] < 1 else "equal or wider") + ")"))
         if not res.get("repeat", False):
             v.append((f"C11:{devn}-repeat", "filtering the same input object a second time gives a different result"))
         fname = "BPF" if devn == "bpf" else "LPF"
